@@ -296,11 +296,14 @@ def handleKp (fields : List String) : String :=
       let applyF : Dir → List (Coor Float) → List (Coor Float) × Nat := fun dir data =>
         apply sem (Float.ofBits 0x7FF8000000000000) (Ops.actionOf Float) op dir data
       let tr := Kp.transform opts applyF Kp.fmtFloat
-      let fs : List (Option (List Str)) := files.map fun f =>
-        if f == "UNREADABLE" then none
+      -- a file that cannot be opened, or cannot be read (a directory), ends the run; one that
+      -- cannot be read beyond some line (invalid UTF-8) gives its lines up to there, then ends the run
+      let fs : List (Option (List Str)) := files.flatMap fun f =>
+        if f == "UNREADABLE" || f == "DIRECTORY" then [none]
+        else if f.startsWith "BROKEN:" then [some (lines (u (f.drop 7).toString)), none]
         else
           -- `BufRead::lines`: split at \n, strip one trailing \r
-          some (lines (u f))
+          [some (lines (u f))]
       let (out, ok) := Kp.run opts Gen.kpBatch tr fs
       "rc=" ++ (if ok then "0" else "1") ++ " out=" ++ escape (String.join (out.map (· ++ "\n"))).toList
   | _ => "bad-case"
